@@ -146,6 +146,18 @@ func genSched(cfg Config, emit func(string, bool, []string)) {
 			emit("sched storm", true, ops)
 			continue
 		}
+		if c%50 == 23 {
+			// registrations crossing each other, then writers over both new tables
+			add("init %d", 1+r.IntN(2))
+			if r.IntN(2) == 0 {
+				add("writer 0 commit - -")
+				add("lockstep")
+			}
+			add("regrace %s", []string{"abort", "commit"}[r.IntN(2)])
+			add("read")
+			emit("sched regrace", true, ops)
+			continue
+		}
 		ntab := 2 + r.IntN(2)
 		manyTables := c%7 == 6
 		if manyTables {
@@ -774,6 +786,42 @@ func (e *schedExec) Do(o *Out, f []string) string {
 			return "deadlock"
 		}
 		return "out-of-fuel"
+	case "regrace":
+		// two NewTable calls crossing each other: the first stops right after its table's mutex
+		// exists, the second runs to the end, then the first — so the table with the LOWER lock
+		// sequence number has the HIGHER position; then a writer over both new tables that commits /
+		// aborts, then a committing writer over both.  Only "did everything finish" is compared.
+		if len(f) != 2 || e.db == nil {
+			return "bad-op"
+		}
+		stepTo := func(t int) string {
+			for fuel := 0; fuel < 64 && !e.threads[t].done; fuel++ {
+				if r := e.Do(o, []string{"step", strconv.Itoa(t)}); r == "stuck" || r == "panic" || r == "blocked" {
+					return r
+				}
+			}
+			return "ok"
+		}
+		a := len(e.threads)
+		nt := len(e.tables)
+		e.Do(o, []string{"register"})
+		e.Do(o, []string{"register"})
+		e.Do(o, []string{"step", strconv.Itoa(a)})
+		if r := stepTo(a + 1); r != "ok" {
+			return r
+		}
+		if r := stepTo(a); r != "ok" {
+			return r
+		}
+		if len(e.tables) != nt+2 {
+			return "registration-failed"
+		}
+		e.Do(o, []string{"writer", fmt.Sprintf("%d,%d", nt, nt+1), f[1], "-", "-"})
+		if r := e.Do(o, []string{"lockstep"}); r != "finished" {
+			return r
+		}
+		e.Do(o, []string{"writer", fmt.Sprintf("%d,%d", nt+1, nt), "commit", "-", "-"})
+		return e.Do(o, []string{"lockstep"})
 	case "storm":
 		n, _ := strconv.Atoi(f[1])
 		trials, _ := strconv.Atoi(f[2])
